@@ -2,7 +2,7 @@
 """Self-test of check C28: every seeded break is a monkeypatch applied inside the check's worker processes through the
 environment variable VERIF_BREAK (see checks/c28_mutation.py:_apply_break; /repo is never edited).  The directed chunk is
 run under each break and the witness keys are printed.  NOTE: this overwrites evidence/C28.json; re-run the check afterwards.
-Usage: /venv/bin/python seeded/c28_breaks.py [name ...]
+Usage: /venv/bin/python tools/selftest_c28.py [name ...]
 """
 
 from __future__ import annotations
